@@ -198,7 +198,7 @@ func (g *gen) memScenario(w *world, steps int) {
 	var sizes []int
 	for i := 0; i < steps && !w.dead; i++ {
 		p := ps[g.r.Intn(2)]
-		switch k := g.r.Intn(24); {
+		switch k := g.r.Intn(25); {
 		case k < 8:
 			text := g.cleanText()
 			side(p).needles = append(side(p).needles, needle{text, "text", i})
@@ -231,6 +231,44 @@ func (g *gen) memScenario(w *world, steps int) {
 			_, ts, _, _ := w.recv(p, []byte("?OTR Error: x"))
 			l.enqueue(p, ts)
 			after(p, "after an error message")
+		case k < 23:
+			// a re-keying that is overtaken by the peer's own: p has sent its Reveal Signature
+			// (AWAITING_SIG, the new exchange's exponent is held twice) when a DH-Commit arrives
+			settle()
+			if w.dead || !a.c.IsEncrypted() || !b.c.IsEncrypted() {
+				break
+			}
+			o := a
+			if p == a {
+				o = b
+			}
+			q := []byte("?OTRv2?")
+			if version == 3 {
+				q = []byte("?OTRv3?")
+			}
+			w.tick(61)
+			_, commit, _, _ := w.recv(p, q)
+			after(p, "after starting to re-key")
+			var reveal []otr3.ValidMessage
+			for _, m := range commit {
+				_, dhkey, _, _ := w.recv(o, m)
+				for _, m2 := range dhkey {
+					_, r, _, _ := w.recv(p, m2)
+					reveal = append(reveal, r...)
+				}
+			}
+			after(p, "after sending the Reveal Signature message of a re-keying")
+			w.tick(61)
+			_, commit2, _, _ := w.recv(o, q)
+			for _, m := range commit2 {
+				_, ts, _, _ := w.recv(p, m)
+				l.enqueue(p, ts)
+			}
+			after(p, "after a DH-Commit overtook our re-keying")
+			after(o, "after a DH-Commit overtook our re-keying (peer)")
+			_ = reveal // never delivered
+			settle()
+			after(p, "after the overtaking exchange completed")
 		default:
 			w.tick(61)
 		}
@@ -250,6 +288,53 @@ func (g *gen) memScenario(w *world, steps int) {
 	_ = hex.EncodeToString
 }
 
+
+// C19 / C18: rounds of "the peer reports the last message unreadable, the key exchange is repeated"
+// without any new Send: what is kept for retransmission must not grow from round to round
+func (g *gen) resendRounds(w *world) {
+	w.parties = map[string]*party{}
+	w.dead = false
+	version := 2 + g.r.Intn(2)
+	pol := 2
+	if version == 3 {
+		pol = 4
+	}
+	a := w.newParty(partyCfg{policies: pol | 64, keyIdx: 0, errh: true})
+	b := w.newParty(partyCfg{policies: pol, keyIdx: 1, errh: true})
+	l := &link{w: w, a: a, b: b}
+	l.enqueue(a, []otr3.ValidMessage{w.query(a)})
+	l.settle(30)
+	if !a.c.IsEncrypted() || !b.c.IsEncrypted() {
+		return
+	}
+	text := g.cleanText()
+	ts, _ := w.send(a, text)
+	l.enqueue(a, ts)
+	l.settle(10)
+	bound := len(text) + len("[resent] ")
+	for round := 1; round <= 6+g.r.Intn(6) && !w.dead; round++ {
+		w.tick(61)
+		_, ts, _, _ := w.recv(a, []byte("?OTR Error: could not read that"))
+		l.enqueue(a, ts)
+		l.settle(30)
+		olog.ok("C19")
+		kept := 0
+		for _, m := range otr3.VerifSnapshot(a.c).Resend {
+			kept += len(m)
+		}
+		if kept > bound {
+			olog.viol("C19", "resend-text-grows", fmt.Sprintf("OTRv%d: after %d rounds of error message + repeated key exchange without a new Send, %d bytes are kept for retransmission (the only text ever sent has %d bytes)", version, round, kept, len(text)))
+			return
+		}
+		for _, p := range b.received {
+			if len(p) > bound {
+				olog.viol("C19", "resend-text-grows", fmt.Sprintf("OTRv%d: after %d rounds the peer was handed a text of %d bytes (the only text ever sent has %d bytes)", version, round, len(p), len(text)))
+				return
+			}
+		}
+	}
+}
+
 func init() {
 	profiles["mem"] = func(seed int64, n int, out *emitter, extra map[string]interface{}) map[string]int {
 		g := &gen{r: rand.New(rand.NewSource(seed)), out: out, dist: map[string]int{}}
@@ -257,6 +342,9 @@ func init() {
 		w := newWorld(g)
 		for i := 0; i < n; i++ {
 			g.memScenario(w, 40+g.r.Intn(60))
+			if i%4 == 0 {
+				g.resendRounds(w)
+			}
 		}
 		extra["panics"] = panicCount
 		olog.export(extra)
